@@ -20,6 +20,22 @@ pub fn pos_drop_unused(x: u32) -> u32 {
     let _ = fallible(x);
     x
 }
+/// R15.1: a Result dropped on a path that goes on to report success
+pub fn pos_drop_unused_then_ok(x: u32) -> Result<u32, String> {
+    let first = fallible(x)?;
+    let _ = fallible(first);
+    Ok(first)
+}
+/// R15.1: clean-up on an error path (the first error is the one reported)
+pub fn neg_drop_on_error_path(x: u32) -> Result<u32, String> {
+    match fallible(x) {
+        Ok(v) => Ok(v),
+        Err(e) => {
+            let _ = fallible(0);
+            Err(e)
+        }
+    }
+}
 pub fn pos_drop_is_ok(x: u32) -> bool {
     fallible(x).is_ok()
 }
@@ -551,6 +567,16 @@ impl<I: Iterator<Item = Result<u32, String>>> Polling<I> {
     pub fn pos_repoll(&mut self) -> Option<Result<u32, String>> {
         self.src.next()
     }
+    /// R15.11: the hint of a source that will not be polled again is still announced
+    pub fn pos_stale_hint(&self) -> (usize, Option<usize>) {
+        self.src.size_hint()
+    }
+    pub fn neg_hint_while_live(&self) -> (usize, Option<usize>) {
+        if self.done {
+            return (0, Some(0));
+        }
+        self.src.size_hint()
+    }
     pub fn neg_fused(&mut self) -> Option<Result<u32, String>> {
         if self.done {
             return None;
@@ -615,4 +641,65 @@ pub fn neg_refused_with_match(s: &str) -> Option<usize> {
 pub fn neg_refused_with_question_mark(s: &str) -> Result<usize, ()> {
     checked_token(s)?;
     Ok(consume_token(s))
+}
+
+// ---------------------------------------------------------------- R15.14 a formatter is finished on every path but a sink error
+pub enum FixStreamError {
+    Source(String),
+    Sink(std::io::Error),
+}
+pub struct FixFormatter {
+    pub open: bool,
+}
+impl FixFormatter {
+    #[inline(never)]
+    pub fn finish(&mut self) -> Result<(), std::io::Error> {
+        self.open = false;
+        Ok(())
+    }
+}
+#[inline(never)]
+pub fn feed_formatter(f: &mut FixFormatter, fail: u8) -> Result<(), FixStreamError> {
+    f.open = true;
+    match fail {
+        0 => Ok(()),
+        1 => Err(FixStreamError::Source(String::new())),
+        _ => Err(FixStreamError::Sink(std::io::Error::other("x"))),
+    }
+}
+/// positive: `?` returns the source error and leaves the last statement open
+pub fn pos_unfinished_on_source_error(fail: u8) -> Result<(), FixStreamError> {
+    let mut f = FixFormatter { open: false };
+    feed_formatter(&mut f, fail)?;
+    f.finish().map_err(FixStreamError::Sink)?;
+    Ok(())
+}
+/// negative: finished before the source error is returned; a sink error returns at once
+pub fn neg_finished_on_source_error(fail: u8) -> Result<(), FixStreamError> {
+    let mut f = FixFormatter { open: false };
+    match feed_formatter(&mut f, fail) {
+        Ok(()) => f.finish().map_err(FixStreamError::Sink)?,
+        Err(FixStreamError::Source(e)) => {
+            let _ = f.finish();
+            return Err(FixStreamError::Source(e));
+        }
+        Err(e) => return Err(e),
+    }
+    Ok(())
+}
+/// negative: finished whatever happened, then the first error is reported
+pub fn neg_finished_before_deciding(fail: u8) -> Result<(), FixStreamError> {
+    let mut f = FixFormatter { open: false };
+    let fed = feed_formatter(&mut f, fail);
+    let finished = f.finish();
+    fed?;
+    finished.map_err(FixStreamError::Sink)
+}
+
+// ---------------------------------------------------------------- R13.24 a function that ignores an argument
+pub fn pos_ignores_argument(_label: &str) -> u64 {
+    std::hint::black_box(7)
+}
+pub fn neg_uses_argument(label: &str) -> u64 {
+    label.len() as u64
 }
